@@ -43,6 +43,10 @@ const (
 	nItems
 )
 
+// itManySmall is not part of the subset alphabet: 900 small transactions offered to a proposer whose block
+// holds ~170 KB of transaction bytes (the "big" world): a block FULL of small transactions.
+const itManySmall = 100
+
 func mustTx(tx lib.TransactionI, e lib.ErrorI) []byte {
 	if e != nil {
 		panic(e)
@@ -175,8 +179,11 @@ func genesis() (*fsm.GenesisState, int) {
 	return g, len(sample)
 }
 
-func newWorld() (*world, error) {
+func newWorld(big ...bool) (*world, error) {
 	g, sl := genesis()
+	if len(big) > 0 && big[0] {
+		g.Params.Consensus.BlockSize = lib.MaxBlockHeaderSize + 170_000
+	}
 	w := &world{g: g, sendLen: sl}
 	var err error
 	if w.A, err = env.NewNode(g, env.NodeOpts{Name: "A", Key: 0, ApproveList: true}); err != nil {
@@ -214,6 +221,14 @@ func (w *world) step(mempool []int) (rep blockReport, probs []problem, fatal err
 	approve := fsm.GovProposals{}
 	var signers []int
 	for _, it := range mempool {
+		if it == itManySmall {
+			for i := 0; i < 900; i++ {
+				bz := send(10, 11, uint64(1+i), h, "")
+				txs = append(txs, bz)
+			}
+			rep.Offered = append(rep.Offered, "900-small-sends")
+			continue
+		}
 		if it == itPartialQC {
 			signers = []int{0, 1, 2}
 			rep.Offered = append(rep.Offered, items[it].name)
@@ -239,7 +254,7 @@ func (w *world) step(mempool []int) (rep blockReport, probs []problem, fatal err
 		}
 	}
 	for i, e := range w.A.SubmitTxs(txs...) {
-		if e != nil {
+		if e != nil && i < len(mempool) && mempool[i] < nItems {
 			rep.Rejected = append(rep.Rejected, items[mempool[i]].name)
 		}
 	}
@@ -251,7 +266,11 @@ func (w *world) step(mempool []int) (rep blockReport, probs []problem, fatal err
 		name := "?"
 		for i, t := range txs {
 			if bytes.Equal(t, tx) {
-				name = items[mempool[i]].name
+				if len(mempool) == 1 && mempool[0] == itManySmall {
+					name = "sendA"
+				} else if i < len(mempool) && mempool[i] < nItems {
+					name = items[mempool[i]].name
+				}
 			}
 		}
 		if name == "?" {
@@ -310,6 +329,12 @@ func (w *world) syncC(reports []blockReport) (probs []problem, fatal error) {
 	var err error
 	if w.C, err = env.NewNode(w.g, env.NodeOpts{Name: "C", Key: 2}); err != nil {
 		return nil, err
+	}
+	// the archive is served by a node that was restarted after the last commit (every layer above the
+	// database is rebuilt, as after a process restart): what it serves must not depend on what a restart
+	// happens to load first
+	if e := w.A.Restart(); e != nil {
+		return []problem{{kind: "O2-archive-node-cannot-restart", blk: len(reports) - 1, what: "re-opening node A: " + oneLine(e)}}, nil
 	}
 	for i, rep := range reports {
 		h := rep.Height
